@@ -100,6 +100,21 @@ fn draw_writer(rng: &mut Rng) -> (WriterCfg, Vec<u8>) {
         0 => WriterCfg::Real,
         1 => WriterCfg::Vec,
         2 if rng.chance(1, 3) => WriterCfg::Reentrant(rng.range(1, 12) as u8),
+        3 if rng.chance(1, 3) => {
+            // the patchable tail of a long stream: positions around and far
+            // beyond the 16- and 32-bit marks
+            let two32 = 1u64 << 32;
+            WriterCfg::Based(match rng.below(8) {
+                0 => two32,
+                1 => two32 - *rng.pick(&[1u64, 2, 3, 5, 12, 24, 100]),
+                2 => two32 - rng.range(1, 70_000),
+                3 => two32 + rng.range(0, 70_000),
+                4 => *rng.pick(&[1u64 << 31, (1 << 31) - 7, 1 << 33, 1 << 40, 1 << 48, 1 << 62]),
+                5 => 65_536 * rng.range(1, 70_000) - rng.range(0, 14),
+                6 => rng.range(1, 1 << 20),
+                _ => rng.next_u64() >> rng.range(2, 40),
+            })
+        }
         _ => WriterCfg::Paged(*rng.pick(&[1usize, 2, 3, 7, 8, 13, 16, 64, 255, 256])),
     };
     let sides = if rng.chance(1, 24) { 9 } else { 8 };
